@@ -2,6 +2,9 @@
 From Coq Require Import List ZArith NArith Lia Bool Arith.
 From Coq.Strings Require Import Byte.
 From L3 Require Import Ber BerInt Frame Filter Request RequestSeq.
+From Coq Require String.
+From L3 Require Handle.
+From L3G Require CloneTable.
 Import ListNotations.
 
 (* [build_*]: the model of the library's request builders; [spec_decode_req]: a reader written from RFC 4511 section 4. *)
@@ -44,8 +47,25 @@ Proof. exact RequestSeq.c02_sequence. Qed.
 Theorem c02_clones : forall (l : list cstep) (pend : mods) (id : Z), run_csteps (handle_of pend, id) l = asked_csteps pend id l.
 Proof. exact RequestSeq.c02_clones. Qed.
 
+Module HandleFacts.
+Import String.
+Local Open Scope string_scope.
+(* what the sequence model assumes about the handle, read off the source on every run (tables regenerated from src/ldap.rs): a clone is made with nothing pending (timeout, controls, search options None; last id 0; everything else cloned or copied), and each with_* modifier assigns its own field *)
+Theorem c02_clone_starts_clean :
+  forallb (fun f => match Handle.how f with Some "none" => true | _ => false end) Handle.per_operation = true /\
+  Handle.how "last_id" = Some "zero" /\
+  forallb (fun r : string * string => if existsb (String.eqb (fst r)) ("last_id" :: Handle.per_operation) then true
+                                       else (String.eqb (snd r) "clone" || String.eqb (snd r) "copy")) CloneTable.clone_table = true.
+Proof. exact Handle.c02_clone_starts_clean. Qed.
+Theorem c02_modifiers_write_their_field :
+  CloneTable.handle_modifier_table = [("with_search_options", "search_opts"); ("with_controls", "controls"); ("with_timeout", "timeout")].
+Proof. exact Handle.c02_modifiers_write_their_field. Qed.
+End HandleFacts.
+
 Print Assumptions c02_bind. Print Assumptions c02_sasl_external. Print Assumptions c02_search. Print Assumptions c02_add.
 Print Assumptions c02_compare. Print Assumptions c02_delete. Print Assumptions c02_modify. Print Assumptions c02_moddn.
 Print Assumptions c02_extended. Print Assumptions c02_abandon. Print Assumptions c02_unbind. Print Assumptions c02_envelope.
 Print Assumptions c02_sequence.
 Print Assumptions c02_clones.
+Print Assumptions HandleFacts.c02_clone_starts_clean.
+Print Assumptions HandleFacts.c02_modifiers_write_their_field.
